@@ -9,33 +9,33 @@ private def u2 (n a b : String) (f : List Nat → List Nat → String) : Option 
 
 def dispatchC04 : Dispatch := fun op args =>
   match op, args with
-  | "w.adc", [a, b, c] =>
+  | "c04.w.adc", [a, b, c] =>
     match hexToNat? a, hexToNat? b, hexToNat? c with
     | some a, some b, some c => let r := adc a b c; some s!"{natToHex r.1} {natToHex r.2}"
     | _, _, _ => badArgs
-  | "w.sbb", [a, b, c] =>
+  | "c04.w.sbb", [a, b, c] =>
     match hexToNat? a, hexToNat? b, hexToNat? c with
     | some a, some b, some c => let r := sbb a b c; some s!"{natToHex r.1} {natToHex r.2}"
     | _, _, _ => badArgs
-  | "w.mac", [a, b, c, d] =>
+  | "c04.w.mac", [a, b, c, d] =>
     match hexToNat? a, hexToNat? b, hexToNat? c, hexToNat? d with
     | some a, some b, some c, some d => let r := mac a b c d; some s!"{natToHex r.1} {natToHex r.2}"
     | _, _, _, _ => badArgs
-  | "u.adc", [n, a, b, c] =>
+  | "c04.u.adc", [n, a, b, c] =>
     match hexToNat? c with
     | some c => u2 n a b fun x y => let r := uadc x y c; s!"{limbsHex r.1} {natToHex r.2}"
     | none => badArgs
-  | "u.sbb", [n, a, b, c] =>
+  | "c04.u.sbb", [n, a, b, c] =>
     match hexToNat? c with
     | some c => u2 n a b fun x y => let r := usbb x y c; s!"{limbsHex r.1} {natToHex r.2}"
     | none => badArgs
-  | "u.wrapping_add", [n, a, b] => u2 n a b fun x y => limbsHex (wrappingAdd x y)
-  | "u.wrapping_sub", [n, a, b] => u2 n a b fun x y => limbsHex (wrappingSub x y)
-  | "u.saturating_add", [n, a, b] => u2 n a b fun x y => limbsHex (saturatingAdd x y)
-  | "u.saturating_sub", [n, a, b] => u2 n a b fun x y => limbsHex (saturatingSub x y)
-  | "u.checked_add", [n, a, b] => u2 n a b fun x y =>
+  | "c04.u.wrapping_add", [n, a, b] => u2 n a b fun x y => limbsHex (wrappingAdd x y)
+  | "c04.u.wrapping_sub", [n, a, b] => u2 n a b fun x y => limbsHex (wrappingSub x y)
+  | "c04.u.saturating_add", [n, a, b] => u2 n a b fun x y => limbsHex (saturatingAdd x y)
+  | "c04.u.saturating_sub", [n, a, b] => u2 n a b fun x y => limbsHex (saturatingSub x y)
+  | "c04.u.checked_add", [n, a, b] => u2 n a b fun x y =>
       let r := checkedAdd x y; if r.2 = WMAX then limbsHex r.1 else "none"
-  | "u.checked_sub", [n, a, b] => u2 n a b fun x y =>
+  | "c04.u.checked_sub", [n, a, b] => u2 n a b fun x y =>
       let r := checkedSub x y; if r.2 = WMAX then limbsHex r.1 else "none"
   | _, _ => none
 
